@@ -9,25 +9,26 @@ Open Scope N_scope.
 
 (* Every well-formed ClientHello (any extension order, GREASE, padding, session id, several names,
    any capacity behind the slice): the extractor returns the first host_name, or "not found". *)
-(* OPEN: stated at full strength, not yet proved; re-observed on every generated case (model = spec). *)
-Definition C06_tls_roundtrip_open : Prop :=
+Theorem C06_tls_roundtrip :
   forall (h : hello) (slack : bytes),
     wf_hello h = true -> extract_sni_bytes (enc_handshake h) slack = raw_name_of h.
+Proof. exact C06_tls_roundtrip_proof. Qed.
+Print Assumptions C06_tls_roundtrip.
 
 (* ... and the sniffer reports it lower-cased, whatever follows the record in the same read. *)
-(* OPEN: stated at full strength, not yet proved; re-observed on every generated case (model = spec). *)
-Definition C06_tls_stream_roundtrip_open : Prop :=
+Theorem C06_tls_stream_roundtrip :
   forall (h : hello) (m : N) (rest slack : bytes),
     wf_hello h = true -> hello_names_wf h = true -> blen (enc_handshake h) < 65536 ->
     sniff_group_tcp (enc_record m h ++ rest) slack = name_of h.
+Proof. exact C06_tls_stream_roundtrip_proof. Qed.
+Print Assumptions C06_tls_stream_roundtrip.
 
 (* However the stream is cut into reads (empty reads and EOF-without-data included), once the first
    read holds the 5-byte record header and the record eventually completes, the result is that of
    the whole stream in one read. *)
 Definition benign (e : rd) : bool := match rd_status e with RsOk | RsEof => true | _ => false end.
 Definition is_prefix (p l : bytes) : bool := bytes_eqb p (firstn (length p) l).
-(* OPEN: stated at full strength, not yet proved; re-observed on every generated case (model = spec). *)
-Definition C06_chunking_invariant_open : Prop :=
+Theorem C06_chunking_invariant :
   forall (h : hello) (m : N) (script : list rd),
     wf_hello h = true -> hello_names_wf h = true -> blen (enc_handshake h) < 65536 ->
     forallb benign script = true ->
@@ -35,6 +36,8 @@ Definition C06_chunking_invariant_open : Prop :=
     is_prefix (enc_record m h) (concat (map rd_data script)) = true ->
     fst (fst (sniff_tcp script)) = name_of h
     /\ sniff_whole (concat (map rd_data script)) = name_of h.
+Proof. exact C06_chunking_invariant_proof. Qed.
+Print Assumptions C06_chunking_invariant.
 
 (* ---------------------------------------------------------------- never another name (all inputs) *)
 (* For EVERY byte string and every capacity: a reported name is the body of a host_name entry
@@ -54,46 +57,60 @@ Print Assumptions C06_only_carried_name.
    slice with spare capacity behaves identically.  (Before fix 86bfe56 this was false: a server_name
    extension header one byte before the end of the extension block was read one byte past the
    record; the witness is now a regression input in corpus/C06.) *)
-(* OPEN: stated at full strength, not yet proved; re-observed on every generated case (model = spec). *)
-Definition C06_tls_no_oob_open : Prop :=
+Theorem C06_tls_no_oob :
   forall (data slack : bytes),
     extract_sni_strict data <> Oob
     /\ extract_sni_bytes data slack = extract_sni_strict data
     /\ extract_sni_strict data <> OutOfFuel.
+Proof. exact C06_tls_no_oob_proof. Qed.
+Print Assumptions C06_tls_no_oob.
 
 (* The QUIC-side locator never indexes outside a fragment, for ALL fragment lists. *)
-(* OPEN: stated at full strength, not yet proved; re-observed on every generated case (model = spec). *)
-Definition C06_linear_no_oob_open : Prop :=
+Theorem C06_linear_no_oob :
   forall o : list frag, extract_sni_linear o <> Oob.
+Proof. exact C06_linear_no_oob_proof. Qed.
+Print Assumptions C06_linear_no_oob.
 
 (* ---------------------------------------------------------------- HTTP/1 *)
-(* OPEN: stated at full strength, not yet proved; re-observed on every generated case (model = spec). *)
-Definition C06_http_roundtrip_open : Prop :=
+Theorem C06_http_roundtrip :
   forall (q : http_head) (body slack : bytes),
     wf_head q = true -> sniff_group_tcp (enc_head q ++ body) slack = host_of q.
+Proof. exact C06_http_roundtrip_proof. Qed.
+Print Assumptions C06_http_roundtrip.
 
 (* ---------------------------------------------------------------- QUIC CRYPTO reassembly *)
 (* However the CRYPTO stream s is cut into frames (split, reordered, duplicated, overlapping) and
    however the frames are spread over packets, once every position is delivered the reassembled
    fragment list is the single fragment (0, s). *)
 Definition reassemble_frags (offsets new : list frag) : list frag := merge_frags (sort_frags (offsets ++ new)).
-(* OPEN: stated at full strength, not yet proved; re-observed on every generated case (model = spec). *)
-Definition C06_crypto_reassembly_open : Prop :=
+Theorem C06_crypto_reassembly :
   forall (s : bytes) (packets : list (list frag)),
     s <> [] ->
     forallb (fragmentation_of s) packets = true ->
     covers_all s (concat packets) = true ->
     fold_left reassemble_frags packets [] = [(0, s)].
+Proof. exact C06_crypto_reassembly_proof. Qed.
+Print Assumptions C06_crypto_reassembly.
 
 (* Hence a well-formed ClientHello is recognised from any such fragmentation (relative to the
    decryption oracle, which supplies the frames). *)
-(* OPEN: stated at full strength, not yet proved; re-observed on every generated case (model = spec). *)
-Definition C06_quic_roundtrip_open : Prop :=
+Theorem C06_quic_roundtrip :
   forall (h : hello) (packets : list (list frag)),
     wf_hello h = true ->
     forallb (fragmentation_of (enc_handshake h)) packets = true ->
     covers_all (enc_handshake h) (concat packets) = true ->
     extract_sni_linear (fold_left reassemble_frags packets []) = raw_name_of h.
+Proof. exact C06_quic_roundtrip_proof. Qed.
+Print Assumptions C06_quic_roundtrip.
+
+(* Frame level: whatever PADDING / PING frames are interleaved with the CRYPTO frames of a packet
+   (encoder enc_frames / enc_varint after RFC 9000 sections 16, 19.1, 19.2, 19.6, defined in
+   C06_ProofsQuic.v), ReassembleCryptos recovers exactly the CRYPTO frames and merges them. *)
+Theorem C06_frames_roundtrip :
+  forall (fs : list qframe) (offsets : list frag),
+    wf_frames fs -> reassemble offsets (enc_frames fs) = ROk (reassemble_frags offsets (cryptos fs)).
+Proof. exact C06_frames_roundtrip_proof. Qed.
+Print Assumptions C06_frames_roundtrip.
 
 (* ---------------------------------------------------------------- replay *)
 (* Whatever the outcome (found, not found, not applicable, need-more-then-timeout, i/o error) and
